@@ -1,18 +1,21 @@
 //! e_c01 — real-kernel operation-sequence explorer for C01 (in-flight operations keep their
 //! memory and descriptors alive) and C02 (every operation completes exactly once, with its own
 //! result). See DESIGN.md §2 C01 / C02.
+//!
+//! Process layout: the parent computes the work-item list and starts one single-threaded worker
+//! process per core (io_uring creation/teardown serializes inside one address space; separate
+//! processes scale, and a crash of compio code under test takes down one worker only). Workers
+//! claim items from a shared counter, write their partial results to a file; the parent merges.
 mod model;
 mod track;
 mod world;
 
 use std::{
-    collections::BTreeMap,
+    collections::{BTreeMap, BTreeSet},
+    os::fd::AsRawFd,
     path::{Path, PathBuf},
-    sync::{
-        Mutex,
-        atomic::{AtomicBool, AtomicU64, Ordering},
-    },
-    time::Duration,
+    sync::atomic::{AtomicU64, Ordering},
+    time::{Duration, Instant},
 };
 
 use compio_driver::{AsyncifyPool, DriverType};
@@ -25,7 +28,8 @@ use world::{Env, Fail, STUCK_SEEN, World};
 // ------------------------------------------------------------------------------------------
 
 fn p(s: &str, max_ready: u8) -> Program {
-    Program::parse(s, max_ready).unwrap_or_else(|| vcore::machinery_error(&format!("bad program {s}")))
+    Program::parse(s, max_ready)
+        .unwrap_or_else(|| vcore::machinery_error(&format!("bad program {s}")))
 }
 
 fn programs(prop: Prop, tier: Tier) -> Vec<Program> {
@@ -49,12 +53,12 @@ fn programs(prop: Prop, tier: Tier) -> Vec<Program> {
                 "job.d@0+job.c@1",
                 "file.t@0+read.d@1",
                 "recv.t@0+recv.t@0",
-                "job.c@0+recv.c@1",
             ] {
                 v.push(p(s, 1));
             }
             if tier == Tier::Thorough {
                 for s in [
+                    "job.c@0+recv.c@1",
                     "read.d@0+read.d@0",
                     "accept.t@0+job.t@1",
                     "file.c@0+file.c@0",
@@ -99,6 +103,9 @@ fn programs(prop: Prop, tier: Tier) -> Vec<Program> {
             }
         }
     }
+    if let Ok(f) = std::env::var("E_C01_PROG") {
+        v.retain(|p| p.name().contains(&f));
+    }
     v
 }
 
@@ -109,7 +116,22 @@ fn configs() -> Vec<Config> {
             v.push(Config { driver, cap });
         }
     }
+    if let Ok(f) = std::env::var("E_C01_CFG") {
+        v.retain(|c| c.name().contains(&f));
+    }
     v
+}
+
+fn depth_of(prop: Prop, tier: Tier) -> usize {
+    std::env::var("E_C01_DEPTH")
+        .ok()
+        .and_then(|s| s.parse().ok())
+        .unwrap_or(match (prop, tier) {
+            (Prop::C01, Tier::Quick) => 6,
+            (Prop::C01, Tier::Thorough) => 8,
+            (Prop::C02, Tier::Quick) => 7,
+            (Prop::C02, Tier::Thorough) => 9,
+        })
 }
 
 // ------------------------------------------------------------------------------------------
@@ -125,47 +147,50 @@ struct Exec {
     obs: Vec<String>,
     reached: Vec<&'static str>,
     sig: String,
-    nsteps: u64,
-}
-
-fn summarize(w: &World) -> String {
-    // compact outcome class of the execution: how each operation ended
-    let mut parts = Vec::new();
-    for line in w.obs.iter() {
-        // keep only the result part of polls/submits
-        if let Some((head, rest)) = line.split_once(" -> ") {
-            let kind = head.split('(').next().unwrap_or("");
-            let res = rest.split([' ', '(']).next().unwrap_or("");
-            parts.push(format!("{}{}", &kind[..1], res));
-        }
-    }
-    format!("{}:{}:{}", w.cfg.dname(), w.prog.name(), parts.join(","))
 }
 
 fn finish_exec(mut w: World, points: Vec<(u32, u32)>, diverged: bool, panic: Option<String>) -> Exec {
-    if let Some(p) = &panic {
-        let short: String = p.chars().filter(|c| c.is_ascii_alphanumeric() || *c == ' ').take(48).collect();
+    if let Some(p) = panic.as_ref().filter(|p| p.starts_with("harness")) {
+        w.fails.push(Fail {
+            oracle: "machinery",
+            class: "harness-panic".into(),
+            msg: p.clone(),
+        });
+    } else if let Some(p) = &panic {
+        let short: String = p
+            .chars()
+            .filter(|c| c.is_ascii_alphanumeric() || *c == ' ')
+            .take(48)
+            .collect();
         w.fails.push(Fail {
             oracle: "panic",
             class: format!("panic:{}", short.replace(' ', "-")),
             msg: format!("compio panicked: {p}"),
         });
     }
+    let sig = w.signature();
     Exec {
         steps: w.steps.clone(),
         points,
         diverged,
+        sig,
         fails: std::mem::take(&mut w.fails),
         obs: std::mem::take(&mut w.obs),
         reached: std::mem::take(&mut w.reached),
-        sig: summarize(&w),
-        nsteps: w.steps.len() as u64,
     }
 }
 
 /// Runs one execution: follows `prefix` (choice indices into the enabled sets), then always the
 /// first enabled step, up to `depth` steps.
-fn run_choices(prop: Prop, cfg: Config, prog: &Program, env: &Env, prefix: &[u32], depth: usize) -> Exec {
+fn run_choices(
+    prop: Prop,
+    cfg: Config,
+    prog: &Program,
+    env: &Env,
+    prefix: &[u32],
+    depth: usize,
+    cur: Option<&Current>,
+) -> Exec {
     let mut w = World::new(prop, cfg, prog, env);
     let mut points = Vec::new();
     let mut diverged = false;
@@ -186,6 +211,11 @@ fn run_choices(prop: Prop, cfg: Config, prog: &Program, env: &Env, prefix: &[u32
             }
             points.push((c, en.len() as u32));
             let s = en[c as usize];
+            if let Some(cur) = cur {
+                let mut steps = w.steps.clone();
+                steps.push(s);
+                cur.set(&replay_json(prop, &cfg, prog, &steps));
+            }
             w.step(s);
             if s.terminal() {
                 break;
@@ -217,24 +247,104 @@ fn run_steps(prop: Prop, cfg: Config, prog: &Program, env: &Env, steps: &[Step])
 }
 
 // ------------------------------------------------------------------------------------------
-// aggregation
+// shared memory between parent and workers
+// ------------------------------------------------------------------------------------------
+
+struct Shared {
+    ptr: *mut u8,
+    len: usize,
+}
+
+impl Shared {
+    fn open(path: &Path, len: usize, create: bool) -> Shared {
+        let f = std::fs::OpenOptions::new()
+            .read(true)
+            .write(true)
+            .create(create)
+            .truncate(false)
+            .open(path)
+            .unwrap_or_else(|e| vcore::machinery_error(&format!("cannot open {path:?}: {e}")));
+        if create {
+            f.set_len(len as u64).unwrap();
+        }
+        let p = unsafe {
+            libc::mmap(
+                std::ptr::null_mut(),
+                len,
+                libc::PROT_READ | libc::PROT_WRITE,
+                libc::MAP_SHARED,
+                f.as_raw_fd(),
+                0,
+            )
+        };
+        if p == libc::MAP_FAILED {
+            vcore::machinery_error("mmap of the shared work file failed");
+        }
+        Shared {
+            ptr: p as *mut u8,
+            len,
+        }
+    }
+
+    fn counter(&self) -> &AtomicU64 {
+        unsafe { &*(self.ptr as *const AtomicU64) }
+    }
+}
+
+/// "what this worker is executing right now", readable by the parent after a crash
+struct Current(Shared);
+
+impl Current {
+    fn set(&self, v: &Value) {
+        let s = v.to_string();
+        let b = s.as_bytes();
+        let n = b.len().min(self.0.len - 8);
+        unsafe {
+            std::ptr::write_volatile(self.0.ptr as *mut u32, 0);
+            std::ptr::copy_nonoverlapping(b.as_ptr(), self.0.ptr.add(8), n);
+            std::ptr::write_volatile(self.0.ptr as *mut u32, n as u32);
+        }
+    }
+
+    fn get(&self) -> Option<Value> {
+        let n = unsafe { std::ptr::read_volatile(self.0.ptr as *const u32) } as usize;
+        if n == 0 || n > self.0.len - 8 {
+            return None;
+        }
+        let b = unsafe { std::slice::from_raw_parts(self.0.ptr.add(8), n) };
+        vcore::serde_json::from_slice(b).ok()
+    }
+}
+
+// ------------------------------------------------------------------------------------------
+// aggregation (per worker, merged by the parent)
 // ------------------------------------------------------------------------------------------
 
 struct Found {
     len: usize,
-    v: Violation,
+    what: String,
+    replay: Value,
     count: u64,
     confirmed: bool,
 }
 
+#[derive(Default)]
 struct Agg {
-    found: Mutex<BTreeMap<String, Found>>,
-    machinery: Mutex<BTreeMap<String, (u64, String)>>,
-    other: AtomicU64,
-    diverged: AtomicU64,
-    nondet: AtomicU64,
-    flaky_stuck: AtomicU64,
-    abort: AtomicBool,
+    found: BTreeMap<String, Found>,
+    machinery: BTreeMap<String, (u64, String)>,
+    outcomes: BTreeSet<String>,
+    counters: BTreeMap<String, u64>,
+    per_cfg: BTreeMap<String, u64>,
+    samples: Vec<Value>,
+    executions: u64,
+    transitions: u64,
+    capped: bool,
+}
+
+impl Agg {
+    fn count(&mut self, k: &str, n: u64) {
+        *self.counters.entry(k.to_string()).or_insert(0) += n;
+    }
 }
 
 fn relevant(prop: Prop, oracle: &str) -> bool {
@@ -248,50 +358,46 @@ fn key_of(prop: Prop, cfg: &Config, f: &Fail) -> String {
     format!("{}:{}:{}:{}", prop.name(), cfg.dname(), f.oracle, f.class)
 }
 
-#[allow(clippy::too_many_arguments)]
-fn record(agg: &Agg, report: &Report, prop: Prop, cfg: Config, prog: &Program, env: &Env, e: &Exec) {
+fn record(agg: &mut Agg, prop: Prop, cfg: Config, prog: &Program, env: &Env, e: &Exec) {
     for f in &e.fails {
         if f.oracle == "machinery" {
-            let mut g = agg.machinery.lock().unwrap();
-            let ent = g.entry(f.class.clone()).or_insert((0, format!("{} | {} {} {:?}", f.msg, cfg.name(), prog.name(), e.steps.iter().map(|s| s.name()).collect::<Vec<_>>())));
+            let ent = agg.machinery.entry(f.class.clone()).or_insert((
+                0,
+                format!(
+                    "{} | {} {} {:?}",
+                    f.msg,
+                    cfg.name(),
+                    prog.name(),
+                    e.steps.iter().map(|s| s.name()).collect::<Vec<_>>()
+                ),
+            ));
             ent.0 += 1;
             continue;
         }
         if !relevant(prop, f.oracle) {
-            agg.other.fetch_add(1, Ordering::Relaxed);
+            agg.count("failures_of_the_other_propertys_oracles_seen", 1);
             continue;
         }
         let key = key_of(prop, &cfg, f);
-        {
-            let mut g = agg.found.lock().unwrap();
-            if let Some(old) = g.get_mut(&key) {
-                old.count += 1;
-                if old.len <= e.steps.len() && old.confirmed {
-                    continue;
-                }
+        if let Some(old) = agg.found.get_mut(&key) {
+            old.count += 1;
+            if old.len <= e.steps.len() && old.confirmed {
+                continue;
             }
         }
-        // confirm by re-running the same steps
-        let mut confirmed = false;
+        // confirm by re-running the same steps (liveness: must reproduce twice)
         let tries = if f.oracle == "liveness" { 2 } else { 1 };
-        let mut all = true;
+        let mut confirmed = true;
         for _ in 0..tries {
             let again = run_steps(prop, cfg, prog, env, &e.steps);
-            let same = again.fails.iter().any(|g| key_of(prop, &cfg, g) == key);
-            all &= same;
-        }
-        if all {
-            confirmed = true;
-        }
-        if f.oracle == "liveness" && !confirmed {
-            agg.flaky_stuck.fetch_add(1, Ordering::Relaxed);
-            continue;
+            confirmed &= again.fails.iter().any(|g| key_of(prop, &cfg, g) == key);
         }
         if f.oracle == "liveness" {
-            STUCK_SEEN.fetch_add(1, Ordering::Relaxed);
-            if STUCK_SEEN.load(Ordering::Relaxed) > 64 {
-                agg.abort.store(true, Ordering::Relaxed);
+            if !confirmed {
+                agg.count("unreproduced_harvest_timeouts", 1);
+                continue;
             }
+            STUCK_SEEN.fetch_add(1, Ordering::Relaxed);
         }
         let steps: Vec<String> = e.steps.iter().map(|s| s.name()).collect();
         let what = format!(
@@ -303,46 +409,105 @@ fn record(agg: &Agg, report: &Report, prop: Prop, cfg: Config, prog: &Program, e
             e.obs.join(" ; "),
             if confirmed { "" } else { " | (not reproduced on re-run)" }
         );
-        let v = Violation {
-            key: key.clone(),
+        let new = Found {
+            len: e.steps.len(),
             what,
             replay: replay_json(prop, &cfg, prog, &e.steps),
+            count: 1,
+            confirmed,
         };
-        let mut g = agg.found.lock().unwrap();
-        match g.get_mut(&key) {
+        match agg.found.get_mut(&key) {
             Some(old) => {
-                if (confirmed && !old.confirmed) || (confirmed == old.confirmed && e.steps.len() < old.len) {
-                    old.len = e.steps.len();
-                    old.v = v;
-                    old.confirmed = confirmed;
+                if (confirmed && !old.confirmed) || (confirmed == old.confirmed && new.len < old.len) {
+                    let c = old.count;
+                    *old = new;
+                    old.count = c;
                 }
             }
             None => {
-                g.insert(
-                    key,
-                    Found {
-                        len: e.steps.len(),
-                        v,
-                        count: 1,
-                        confirmed,
-                    },
-                );
+                agg.found.insert(key, new);
             }
         }
     }
     for r in &e.reached {
-        report.count(r, 1);
+        agg.count(r, 1);
     }
 }
 
+fn agg_to_json(a: &Agg) -> Value {
+    json!({
+        "found": a.found.iter().map(|(k, f)| json!({"key": k, "len": f.len, "what": f.what, "replay": f.replay, "count": f.count, "confirmed": f.confirmed})).collect::<Vec<_>>(),
+        "machinery": a.machinery.iter().map(|(k, (n, ex))| json!({"class": k, "n": n, "example": ex})).collect::<Vec<_>>(),
+        "outcomes": a.outcomes.iter().collect::<Vec<_>>(),
+        "counters": a.counters,
+        "per_cfg": a.per_cfg,
+        "samples": a.samples,
+        "executions": a.executions,
+        "transitions": a.transitions,
+        "capped": a.capped,
+    })
+}
+
+fn merge_json(a: &mut Agg, v: &Value) {
+    for f in v["found"].as_array().cloned().unwrap_or_default() {
+        let key = f["key"].as_str().unwrap_or("").to_string();
+        let new = Found {
+            len: f["len"].as_u64().unwrap_or(0) as usize,
+            what: f["what"].as_str().unwrap_or("").to_string(),
+            replay: f["replay"].clone(),
+            count: f["count"].as_u64().unwrap_or(1),
+            confirmed: f["confirmed"].as_bool().unwrap_or(false),
+        };
+        match a.found.get_mut(&key) {
+            Some(old) => {
+                let c = old.count + new.count;
+                if (new.confirmed && !old.confirmed) || (new.confirmed == old.confirmed && new.len < old.len) {
+                    *old = new;
+                }
+                old.count = c;
+            }
+            None => {
+                a.found.insert(key, new);
+            }
+        }
+    }
+    for m in v["machinery"].as_array().cloned().unwrap_or_default() {
+        let ent = a
+            .machinery
+            .entry(m["class"].as_str().unwrap_or("").to_string())
+            .or_insert((0, m["example"].as_str().unwrap_or("").to_string()));
+        ent.0 += m["n"].as_u64().unwrap_or(0);
+    }
+    for o in v["outcomes"].as_array().cloned().unwrap_or_default() {
+        if let Some(s) = o.as_str() {
+            a.outcomes.insert(s.to_string());
+        }
+    }
+    for (k, n) in v["counters"].as_object().cloned().unwrap_or_default() {
+        a.count(&k, n.as_u64().unwrap_or(0));
+    }
+    for (k, n) in v["per_cfg"].as_object().cloned().unwrap_or_default() {
+        *a.per_cfg.entry(k).or_insert(0) += n.as_u64().unwrap_or(0);
+    }
+    for s in v["samples"].as_array().cloned().unwrap_or_default() {
+        if a.samples.len() < 6 {
+            a.samples.push(s);
+        }
+    }
+    a.executions += v["executions"].as_u64().unwrap_or(0);
+    a.transitions += v["transitions"].as_u64().unwrap_or(0);
+    a.capped |= v["capped"].as_bool().unwrap_or(false);
+}
+
 // ------------------------------------------------------------------------------------------
-// exploration
+// work items
 // ------------------------------------------------------------------------------------------
 
+#[derive(Clone)]
 struct Item {
     cfg: Config,
     prog: usize,
-    prefix: Vec<u32>,
+    first: u32,
 }
 
 fn next_prefix(points: &[(u32, u32)], fixed: usize) -> Option<Vec<u32>> {
@@ -358,11 +523,48 @@ fn next_prefix(points: &[(u32, u32)], fixed: usize) -> Option<Vec<u32>> {
     None
 }
 
+/// One item per (configuration, program, first step). The set of first steps does not depend
+/// on the driver, so it is computed on the (cheap) polling driver.
+fn make_items(prop: Prop, cfgs: &[Config], progs: &[Program], env: &Env) -> Vec<Item> {
+    let mut items = Vec::new();
+    let probe_cfg = Config {
+        driver: DriverType::Poll,
+        cap: 8,
+    };
+    for (pi, prog) in progs.iter().enumerate() {
+        let n0 = {
+            let mut w = World::new(prop, probe_cfg, prog, env);
+            let n = w.enabled().len() as u32;
+            w.teardown();
+            n
+        };
+        for cfg in cfgs {
+            if prog.uring_only() && !cfg.is_uring() {
+                continue;
+            }
+            for first in 0..n0 {
+                items.push(Item {
+                    cfg: *cfg,
+                    prog: pi,
+                    first,
+                });
+            }
+        }
+    }
+    // big subtrees (first step = Submit(0), index 0) first; io_uring (slow) before polling
+    items.sort_by_key(|it| (it.first != 0, !it.cfg.is_uring()));
+    items
+}
+
 fn make_tmp() -> PathBuf {
-    let base = std::env::var_os("TMPDIR").map(PathBuf::from).unwrap_or_else(|| PathBuf::from("/tmp"));
+    let base = std::env::var_os("TMPDIR")
+        .map(PathBuf::from)
+        .unwrap_or_else(|| PathBuf::from("/tmp"));
     let dir = base.join(format!("e_c01-{}", std::process::id()));
-    std::fs::create_dir_all(&dir).unwrap_or_else(|e| vcore::machinery_error(&format!("cannot create {dir:?}: {e}")));
-    std::fs::write(dir.join("data"), world::file_content()).unwrap_or_else(|e| vcore::machinery_error(&format!("cannot write data file: {e}")));
+    std::fs::create_dir_all(&dir)
+        .unwrap_or_else(|e| vcore::machinery_error(&format!("cannot create {dir:?}: {e}")));
+    std::fs::write(dir.join("data"), world::file_content())
+        .unwrap_or_else(|e| vcore::machinery_error(&format!("cannot write data file: {e}")));
     dir
 }
 
@@ -380,29 +582,120 @@ fn with_env<R>(file: &Path, f: impl FnOnce(&Env) -> R) -> R {
     })
 }
 
-fn replay_main(prop: Prop, path: &Path, file: &Path) -> ! {
-    let body: Value = serde_json_from(path);
-    let r = if body.get("replay").is_some() { &body["replay"] } else { &body };
-    let driver = match r["driver"].as_str() {
-        Some("iour") => DriverType::IoUring,
-        Some("poll") => DriverType::Poll,
-        other => vcore::machinery_error(&format!("replay: bad driver {other:?}")),
+// ------------------------------------------------------------------------------------------
+// worker
+// ------------------------------------------------------------------------------------------
+
+fn worker_main(prop: Prop, tier: Tier, k: usize, dir: &Path) -> ! {
+    let file = dir.join("data");
+    let depth = depth_of(prop, tier);
+    let progs = programs(prop, tier);
+    let cfgs = configs();
+    let wall_cap = Duration::from_secs(tier.pick(36, 800));
+    let start = Instant::now();
+    let shared = Shared::open(&dir.join("work"), 4096, false);
+    let cur = Current(Shared::open(&dir.join(format!("cur-{k}")), 16384, false));
+    let mut agg = Agg::default();
+    with_env(&file, |env| {
+        let items = make_items(prop, &cfgs, &progs, env);
+        loop {
+            let i = shared.counter().fetch_add(1, Ordering::SeqCst) as usize;
+            if i >= items.len() {
+                break;
+            }
+            let item = &items[i];
+            let prog = &progs[item.prog];
+            let mut prefix = vec![item.first];
+            let mut first = true;
+            let mut n = 0u64;
+            loop {
+                if start.elapsed() > wall_cap || STUCK_SEEN.load(Ordering::Relaxed) > 12 {
+                    agg.capped = true;
+                    break;
+                }
+                let e = run_choices(prop, item.cfg, prog, env, &prefix, depth, Some(&cur));
+                if e.diverged {
+                    agg.count("replay_divergences", 1);
+                }
+                n += 1;
+                agg.executions += 1;
+                agg.transitions += e.steps.len() as u64;
+                if agg.outcomes.len() < 20_000 {
+                    agg.outcomes.insert(e.sig.clone());
+                }
+                record(&mut agg, prop, item.cfg, prog, env, &e);
+                if first {
+                    first = false;
+                    // determinism guard: the same steps give the same observations
+                    let again = run_steps(prop, item.cfg, prog, env, &e.steps);
+                    if again.obs != e.obs {
+                        agg.count("nondeterministic_replays", 1);
+                        if agg.samples.len() < 4 {
+                            agg.samples.push(json!({"nondeterministic": {"config": item.cfg.name(), "program": prog.name(), "first": e.obs, "second": again.obs}}));
+                        }
+                    } else if agg.samples.is_empty() {
+                        agg.samples.push(json!({"config": item.cfg.name(), "program": prog.name(), "observations": e.obs}));
+                    }
+                }
+                match next_prefix(&e.points, 1) {
+                    Some(pf) => prefix = pf,
+                    None => break,
+                }
+            }
+            *agg.per_cfg.entry(item.cfg.name()).or_insert(0) += n;
+            if agg.capped {
+                break;
+            }
+        }
+    });
+    cur.set(&json!(null));
+    let out = dir.join(format!("out-{k}.json"));
+    std::fs::write(&out, vcore::serde_json::to_vec(&agg_to_json(&agg)).unwrap())
+        .unwrap_or_else(|e| vcore::machinery_error(&format!("cannot write {out:?}: {e}")));
+    std::process::exit(0)
+}
+
+// ------------------------------------------------------------------------------------------
+// replay
+// ------------------------------------------------------------------------------------------
+
+fn parse_replay(r: &Value) -> Option<(Config, Program, Vec<Step>)> {
+    let driver = match r["driver"].as_str()? {
+        "iour" => DriverType::IoUring,
+        "poll" => DriverType::Poll,
+        _ => return None,
     };
     let cfg = Config {
         driver,
-        cap: r["sq_capacity"].as_u64().unwrap_or(8) as u32,
+        cap: r["sq_capacity"].as_u64()? as u32,
     };
-    let prog = Program::parse(r["program"].as_str().unwrap_or(""), r["max_ready"].as_u64().unwrap_or(1) as u8)
-        .unwrap_or_else(|| vcore::machinery_error("replay: bad program"));
-    let steps: Vec<Step> = r["steps"]
-        .as_array()
-        .cloned()
-        .unwrap_or_default()
-        .iter()
-        .map(|s| Step::parse(s.as_str().unwrap_or("")).unwrap_or_else(|| vcore::machinery_error(&format!("replay: bad step {s}"))))
-        .collect();
+    let prog = Program::parse(r["program"].as_str()?, r["max_ready"].as_u64().unwrap_or(1) as u8)?;
+    let mut steps = Vec::new();
+    for s in r["steps"].as_array()? {
+        steps.push(Step::parse(s.as_str()?)?);
+    }
+    Some((cfg, prog, steps))
+}
+
+fn replay_main(prop: Prop, path: &Path, file: &Path) -> ! {
+    let bytes = std::fs::read(path)
+        .unwrap_or_else(|e| vcore::machinery_error(&format!("cannot read {path:?}: {e}")));
+    let body: Value = vcore::serde_json::from_slice(&bytes)
+        .unwrap_or_else(|e| vcore::machinery_error(&format!("replay file does not parse: {e}")));
+    let r = if body.get("replay").is_some() {
+        &body["replay"]
+    } else {
+        &body
+    };
+    let (cfg, prog, steps) =
+        parse_replay(r).unwrap_or_else(|| vcore::machinery_error("replay: malformed replay value"));
     let e = with_env(file, |env| run_steps(prop, cfg, &prog, env, &steps));
-    println!("replay {} on {} program {}", prop.name(), cfg.name(), prog.name());
+    println!(
+        "replay {} on {} program {}",
+        prop.name(),
+        cfg.name(),
+        prog.name()
+    );
     for o in &e.obs {
         println!("  {o}");
     }
@@ -412,24 +705,33 @@ fn replay_main(prop: Prop, path: &Path, file: &Path) -> ! {
     let mut bad = 0;
     for f in &e.fails {
         let rel = relevant(prop, f.oracle);
-        println!("  {} [{}] {}: {}", if rel { "VIOLATED" } else { "note" }, f.oracle, f.class, f.msg);
+        println!(
+            "  {} [{}] {}: {}",
+            if rel { "VIOLATED" } else { "note" },
+            f.oracle,
+            f.class,
+            f.msg
+        );
         if rel {
             bad += 1;
         }
     }
     let _ = std::fs::remove_dir_all(file.parent().unwrap());
     if bad > 0 {
-        println!("VIOLATION property={} replay={}", prop.name(), path.display());
+        println!(
+            "VIOLATION property={} replay={}",
+            prop.name(),
+            path.display()
+        );
         std::process::exit(1);
     }
     println!("replay: property held on this execution");
     std::process::exit(0)
 }
 
-fn serde_json_from(path: &Path) -> Value {
-    let bytes = std::fs::read(path).unwrap_or_else(|e| vcore::machinery_error(&format!("cannot read {path:?}: {e}")));
-    vcore::serde_json::from_slice(&bytes).unwrap_or_else(|e| vcore::machinery_error(&format!("replay file does not parse: {e}")))
-}
+// ------------------------------------------------------------------------------------------
+// parent
+// ------------------------------------------------------------------------------------------
 
 fn main() {
     let args = vcore::parse_args();
@@ -440,6 +742,10 @@ fn main() {
     };
     let tier = args.tier;
     vcore::quiet_panics();
+    if args.rest.first().map(|s| s.as_str()) == Some("--worker") {
+        let k: usize = args.rest[1].parse().unwrap();
+        worker_main(prop, tier, k, Path::new(&args.rest[2]));
+    }
     let tmp = make_tmp();
     let file = tmp.join("data");
     if let Some(r) = &args.replay {
@@ -447,19 +753,9 @@ fn main() {
     }
 
     let report = Report::new(prop.name(), tier);
-    let depth: usize = std::env::var("E_C01_DEPTH")
-        .ok()
-        .and_then(|s| s.parse().ok())
-        .unwrap_or(match (prop, tier) {
-            (Prop::C01, Tier::Quick) => 6,
-            (Prop::C01, Tier::Thorough) => 8,
-            (Prop::C02, Tier::Quick) => 7,
-            (Prop::C02, Tier::Thorough) => 9,
-        });
+    let depth = depth_of(prop, tier);
     let progs = programs(prop, tier);
     let cfgs = configs();
-    let wall_cap = Duration::from_secs(tier.pick(40, 840));
-
     match prop {
         Prop::C01 => {
             report.must_reach("inflight_op_freed_after_ring_closed");
@@ -473,94 +769,88 @@ fn main() {
             report.must_reach("completed_at_submit");
         }
     }
+    let nitems = with_env(&file, |env| make_items(prop, &cfgs, &progs, env).len());
 
-    // work items: every choice prefix of length 2 of every (configuration, program)
-    const FIXED: usize = 2;
-    let mut items = Vec::new();
-    with_env(&file, |env| {
-        for cfg in &cfgs {
-            for (pi, prog) in progs.iter().enumerate() {
-                if prog.uring_only() && !cfg.is_uring() {
-                    continue;
-                }
-                let mut prefix: Vec<u32> = Vec::new();
-                loop {
-                    let e = run_choices(prop, *cfg, prog, env, &prefix, FIXED);
-                    items.push(Item {
-                        cfg: *cfg,
-                        prog: pi,
-                        prefix: e.points.iter().map(|p| p.0).collect(),
-                    });
-                    match next_prefix(&e.points, 0) {
-                        Some(pf) => prefix = pf,
-                        None => break,
-                    }
-                }
+    // shared counter + per-worker "current execution" pages, then the workers
+    let nworkers = vcore::threads().max(1);
+    let shared = Shared::open(&tmp.join("work"), 4096, true);
+    shared.counter().store(0, Ordering::SeqCst);
+    let mut currents = Vec::new();
+    for k in 0..nworkers {
+        currents.push(Current(Shared::open(&tmp.join(format!("cur-{k}")), 16384, true)));
+    }
+    let exe = std::env::current_exe()
+        .unwrap_or_else(|e| vcore::machinery_error(&format!("current_exe: {e}")));
+    let mut children = Vec::new();
+    for k in 0..nworkers {
+        let c = std::process::Command::new(&exe)
+            .arg(prop.name())
+            .arg(tier.name())
+            .arg("--worker")
+            .arg(k.to_string())
+            .arg(&tmp)
+            .spawn()
+            .unwrap_or_else(|e| vcore::machinery_error(&format!("cannot start worker: {e}")));
+        children.push(c);
+    }
+    let mut agg = Agg::default();
+    let mut crashed = Vec::new();
+    for (k, mut c) in children.into_iter().enumerate() {
+        let st = c
+            .wait()
+            .unwrap_or_else(|e| vcore::machinery_error(&format!("wait for worker: {e}")));
+        let out = tmp.join(format!("out-{k}.json"));
+        match std::fs::read(&out).ok().and_then(|b| vcore::serde_json::from_slice::<Value>(&b).ok()) {
+            Some(v) if st.success() => merge_json(&mut agg, &v),
+            _ => {
+                use std::os::unix::process::ExitStatusExt;
+                crashed.push((k, st.signal(), st.code(), currents[k].get()));
             }
         }
-    });
-
-    let agg = Agg {
-        found: Mutex::new(BTreeMap::new()),
-        machinery: Mutex::new(BTreeMap::new()),
-        other: AtomicU64::new(0),
-        diverged: AtomicU64::new(0),
-        nondet: AtomicU64::new(0),
-        flaky_stuck: AtomicU64::new(0),
-        abort: AtomicBool::new(false),
-    };
-    let per_cfg: Mutex<BTreeMap<String, u64>> = Mutex::new(BTreeMap::new());
-    let capped = AtomicBool::new(false);
-
-    vcore::par_for_each(&items, |_, item| {
-        with_env(&file, |env| {
-            let prog = &progs[item.prog];
-            let fixed = item.prefix.len();
-            let mut prefix = item.prefix.clone();
-            let mut first = true;
-            let mut n = 0u64;
-            loop {
-                if agg.abort.load(Ordering::Relaxed) || report.elapsed() > wall_cap.as_secs_f64() {
-                    capped.store(true, Ordering::Relaxed);
-                    break;
-                }
-                let e = run_choices(prop, item.cfg, prog, env, &prefix, depth);
-                if e.diverged {
-                    agg.diverged.fetch_add(1, Ordering::Relaxed);
-                }
-                n += 1;
-                report.add_execution(e.nsteps);
-                report.outcome(e.sig.clone());
-                record(&agg, &report, prop, item.cfg, prog, env, &e);
-                if first {
-                    first = false;
-                    // determinism guard: the same steps give the same observations
-                    let again = run_steps(prop, item.cfg, prog, env, &e.steps);
-                    if again.obs != e.obs {
-                        agg.nondet.fetch_add(1, Ordering::Relaxed);
-                        report.sample(8, || json!({"nondeterministic": {"config": item.cfg.name(), "program": prog.name(), "first": e.obs, "second": again.obs}}));
-                    } else {
-                        report.sample(3, || json!({"config": item.cfg.name(), "program": prog.name(), "observations": e.obs}));
-                    }
-                }
-                match next_prefix(&e.points, fixed) {
-                    Some(pf) => prefix = pf,
-                    None => break,
-                }
-            }
-            *per_cfg.lock().unwrap().entry(item.cfg.name()).or_insert(0) += n;
-        })
-    });
-
+    }
     let _ = std::fs::remove_dir_all(&tmp);
 
     // ---------------------------------------------------------------------------------------
     // report
     // ---------------------------------------------------------------------------------------
-    for (_, f) in agg.found.into_inner().unwrap() {
-        let mut v = f.v;
-        v.what = format!("{} | occurrences in this run: {}", v.what, f.count);
-        report.violation(v);
+    report.evaluations.fetch_add(agg.executions, Ordering::Relaxed);
+    report.traces_validated.fetch_add(agg.executions, Ordering::Relaxed);
+    report.transitions.fetch_add(agg.transitions, Ordering::Relaxed);
+    for o in &agg.outcomes {
+        report.outcome(o.clone());
+    }
+    for (k, n) in &agg.counters {
+        report.count(k, *n);
+    }
+    for s in agg.samples.iter().take(4) {
+        let s = s.clone();
+        report.sample(4, move || s);
+    }
+    for (key, f) in &agg.found {
+        report.violation(Violation {
+            key: key.clone(),
+            what: format!("{} | occurrences in this run: {}", f.what, f.count),
+            replay: f.replay.clone(),
+        });
+    }
+    for (k, sig, code, cur) in &crashed {
+        // a worker that dies while executing compio code: memory-safety class failure
+        let (driver, replay) = match cur {
+            Some(v) if !v.is_null() => (v["driver"].as_str().unwrap_or("?").to_string(), v.clone()),
+            _ => ("?".into(), json!(null)),
+        };
+        if replay.is_null() {
+            eprintln!("MACHINERY-ERROR: worker {k} ended abnormally (signal {sig:?}, code {code:?}) outside an execution");
+            std::process::exit(2);
+        }
+        report.violation(Violation {
+            key: format!("{}:{}:crash:signal-{}", prop.name(), driver, sig.unwrap_or(0)),
+            what: format!(
+                "worker process died (signal {sig:?}, exit code {code:?}) while executing: {replay}"
+            ),
+            replay,
+        });
+        report.cap_hit("a worker process crashed; its remaining work items were not explored");
     }
     report.extra(
         "bounds",
@@ -568,42 +858,39 @@ fn main() {
             "depth": depth,
             "configurations": cfgs.iter().map(|c| c.name()).collect::<Vec<_>>(),
             "programs": progs.iter().map(|p| p.name()).collect::<Vec<_>>(),
-            "work_items": items.len(),
+            "work_items": nitems,
+            "worker_processes": nworkers,
             "receive_buffer_capacity": world::CAP,
             "bytes_per_make_ready": world::CHUNK,
         }),
     );
-    report.extra("executions_per_configuration", json!(*per_cfg.lock().unwrap()));
-    report.count("failures_of_the_other_propertys_oracles_seen", agg.other.load(Ordering::Relaxed));
-    report.count("replay_divergences", agg.diverged.load(Ordering::Relaxed));
-    report.count("nondeterministic_replays", agg.nondet.load(Ordering::Relaxed));
-    report.count("unreproduced_harvest_timeouts", agg.flaky_stuck.load(Ordering::Relaxed));
+    report.extra("executions_per_configuration", json!(agg.per_cfg));
     report.rule(
-        "for every configuration (driver x submission-queue capacity) and every program (2-3 operations with kind, awaiting mode and descriptor sharing fixed) ALL sequences of enabled harness steps up to the depth bound are executed, each on a fresh runtime on the real kernel; states = executions; transitions = harness steps executed; distinct_nontrivial = distinct (configuration, program, per-step result) signatures",
+        "for every configuration (driver x submission-queue capacity) and every program (1-3 operations with kind, awaiting mode and descriptor sharing fixed) ALL sequences of enabled harness steps up to the depth bound are executed, each on a fresh runtime on the real kernel; states = executions; transitions = harness steps executed; distinct_nontrivial = distinct (configuration, how each operation ended) signatures",
     );
     match prop {
         Prop::C01 => {
             report.assume("closing the io_uring descriptor quiesces in-flight requests before close returns: this is the repository's own assumption (impl Drop for Driver in iour/mod.rs) and is NOT checked; the check verifies that compio orders every release after the final completion or after the ring was closed");
             report.assume("polling driver: between syscalls the OS holds no reference to buffers of readiness-based operations; only the blocking pool is an asynchronous holder there");
-            report.assume("completions that already sit in the completion queue when the driver is dropped are drained without being delivered; an operation whose completion was possible at that point (made ready or cancelled+harvested before) may therefore be released inside the teardown step before the ring is closed");
-            report.assume("operation storage released by a pool thread after the runtime is gone is logged into that thread's private hook log and cannot be read; the instrumented buffer's drop is the witness in that case");
+            report.assume("completions that already sit in the completion queue when the driver is dropped are drained without being delivered; an operation whose completion was possible at that point (made ready, or cancelled and harvested before) may therefore be released inside the teardown step before the ring is closed");
         }
         Prop::C02 => {
             report.assume("byte counts are validated against the descriptor FIFO (own stream, contiguous from the FIFO head, within capacity); how many of the available bytes one completion takes is the OS's choice");
-            report.assume("between two operations pending on ONE descriptor the completion order is not prescribed");
+            report.assume("between two operations pending on ONE descriptor the completion order is not prescribed, except on the polling driver where compio itself matches readiness to the head of its per-descriptor queue");
         }
     }
-    if capped.load(Ordering::Relaxed) {
-        report.cap_hit(&format!("stopped early (wall cap {} s or repeated liveness violations)", wall_cap.as_secs()));
+    if agg.capped {
+        report.cap_hit("stopped early (wall cap or repeated liveness violations)");
     }
-    let nd = agg.nondet.load(Ordering::Relaxed);
-    let dv = agg.diverged.load(Ordering::Relaxed);
+    let nd = agg.counters.get("nondeterministic_replays").copied().unwrap_or(0);
+    let dv = agg.counters.get("replay_divergences").copied().unwrap_or(0);
     if nd > 0 || dv > 0 {
-        report.cap_hit(&format!("{nd} determinism-guard mismatches, {dv} enabledness divergences during prefix replay"));
+        report.cap_hit(&format!(
+            "{nd} determinism-guard mismatches, {dv} enabledness divergences during prefix replay"
+        ));
     }
-    let mach = agg.machinery.into_inner().unwrap();
-    if !mach.is_empty() {
-        for (k, (n, ex)) in &mach {
+    if !agg.machinery.is_empty() {
+        for (k, (n, ex)) in &agg.machinery {
             eprintln!("MACHINERY-ERROR: harness anomaly {k} x{n}: {ex}");
         }
         if report.violation_count() == 0 {
